@@ -17,20 +17,19 @@ theorem visitStmt_switch (p : Nat) (d : Kids) (cs : Cases) (a : A) :
       switchFin p a.sc.end_ (switchE (visitCases cs (visitKids d (flagA a p .other))).info cs)
         (visitCases cs (visitKids d (flagA a p .other))) := rfl
 
-theorem switch_compl (ls : List Id) (p : Nat) (d : Kids) (cs : Cases) :
+theorem switch_compl (ls : List Id) (p : Nat) (d : Kids) (cs : Cases) (hd : d.pure = true) :
     let c := Stmt.compl ls (.switchS p d cs)
     c.n = (cs.compl.1.n || !cs.compl.2 || cs.compl.1.b) ∧ c.b = false ∧ c.c = cs.compl.1.c ∧ c.hasCl = cs.compl.1.hasCl ∧
     c.t = (d.mayThrow || cs.testsMayThrow || cs.compl.1.t) := by
+  have hdp := Kids.compl_pure d hd
   refine ⟨?_, ?_, ?_, ?_, ?_⟩
-  · simp [Stmt.compl]
-  · simp [Stmt.compl]
-  · simp [Stmt.compl]
-  · simp only [Stmt.compl]
-    change (((evalCompl d).seq { n := true, t := cs.testsMayThrow }).seq
-      (cs.compl.1.union (Compl.guard (!cs.compl.2) Compl.normal))).hasCl = _
-    simp only [seq_hasCl, union_hasCl, guard_hasCl, normal_hasCl, evalCompl_hasCl, seq_n, evalCompl_n]
-    simp [Compl.hasCl]
-  · simp [Stmt.compl]
+  · simp [Stmt.compl, hdp]
+  · simp [Stmt.compl, hdp]
+  · simp [Stmt.compl, hdp]
+  · simp only [Stmt.compl, seq_hasCl, hdp, pureCompl_hasCl, seq_n, pureCompl_n]
+    simp [Compl.hasCl, Compl.union, Compl.guard]
+    cases cs.compl.2 <;> simp [Compl.normal]
+  · simp [Stmt.compl, hdp]
 
 theorem switchE_cases (info : Info) (live : Bool) (cs : Cases) (hm : cs.marks info live) :
     switchE info cs = .cont ∨
@@ -51,7 +50,7 @@ theorem switchE_cases (info : Info) (live : Bool) (cs : Cases) (hm : cs.marks in
       revert h2; cases live <;> cases cs.compl.1.n <;> cases cs.compl.1.b <;> simp
     · rw [if_neg hd]; exact Or.inl rfl
 
-theorem switch_ok (live : Bool) (ls : List Id) (p : Nat) (d : Kids) (cs : Cases) (a : A)
+theorem switch_ok (live : Bool) (ls : List Id) (p : Nat) (d : Kids) (cs : Cases) (a : A) (hd : d.pure = true)
     (hpre : Pre live (p :: (d.positions ++ cs.positions)) a)
     (ihk : ∀ x, PreK d.positions x → PostK d.upos d.positions d.inner d.mayThrow x (visitKids d x))
     (ihc : ∀ a0, Pre live cs.positions a0 → PostC live cs a0 (visitCases cs a0)) :
@@ -59,11 +58,12 @@ theorem switch_ok (live : Bool) (ls : List Id) (p : Nat) (d : Kids) (cs : Cases)
   rw [visitStmt_switch]
   have hk := ihk _ (Prefix.preK hpre)
   generalize visitKids d (flagA a p .other) = a1 at hk ⊢
-  have hx := Prefix.of hpre hk
-  have hc := ihc a1 ⟨hx.hs, hx.hfresh, hx.ndr⟩
+  have hx := Prefix.ofK hpre hk
+  have he1 : a1.sc.end_ = a.sc.end_ := hk.end_
+  have hc := ihc a1 ⟨fun h => hpre.hs (by rw [← he1]; exact h), hx.hfresh, hx.ndr⟩
   generalize visitCases cs a1 = a2 at hc ⊢
-  have he2 : a2.sc.end_ = a.sc.end_ := hc.end_.trans hx.he
-  obtain ⟨hn, hb0, hc0, hl0, ht0⟩ := switch_compl ls p d cs
+  have he2 : a2.sc.end_ = a.sc.end_ := hc.end_.trans he1
+  obtain ⟨hn, hb0, hc0, hl0, ht0⟩ := switch_compl ls p d cs hd
   have hE := switchE_cases a2.info live cs hc.marks
   generalize switchE a2.info cs = e at hE
   rw [← hn] at hE
@@ -118,7 +118,7 @@ theorem switch_ok (live : Bool) (ls : List Id) (p : Nat) (d : Kids) (cs : Cases)
   · intro q hq hu
     rw [hinfo, markAsEnd_ur] at hu
     simp only [Stmt.upos, List.mem_cons, List.mem_append] at hq
-    simp only [Stmt.reach]
+    simp only [Stmt.reach, Kids.flowReach_pure d q hd, Bool.or_false, evalCompl_eq, Kids.compl_pure d hd, pureCompl_n, Bool.true_and]
     rcases hq with rfl | hq | hq
     · have := hx.dead hpre _ (ur_eq_of_info_eq (hc.frame q hx.pr)) hu
       simp [this]
@@ -143,7 +143,7 @@ theorem switch_ok (live : Bool) (ls : List Id) (p : Nat) (d : Kids) (cs : Cases)
     rw [hmt]
     rw [ht0] at hh
     cases hkt : (live && d.mayThrow) with
-    | true => exact hc.mt (Prefix.pT hpre hk hkt)
+    | true => exact hc.mt (hx.pT hkt)
     | false =>
       apply hc.pT
       have := cs.compl_t
